@@ -248,9 +248,12 @@ package cache
 //@ trace cache.(*RowCache).Create cache.(*RowCache).Update cache.(*RowCache).Delete cache.(*eventProcessor).AddEvent
 //@ at call cache.(*eventProcessor).AddEvent requires calls("cache.(*eventProcessor).AddEvent") == 0
 //@ at call cache.(*eventProcessor).AddEvent requires arg1 == "add" ==> (calls("cache.(*RowCache).Create") == 1 && calls("cache.(*RowCache).Update") == 0 && calls("cache.(*RowCache).Delete") == 0 && arg3 == nil && arg4 == new)
-//@ at call cache.(*eventProcessor).AddEvent requires arg1 == "update" ==> (calls("cache.(*RowCache).Update") == 1 && calls("cache.(*RowCache).Create") == 0 && calls("cache.(*RowCache).Delete") == 0 && arg3 == old && arg4 == new)
-//@ at call cache.(*eventProcessor).AddEvent requires arg1 == "delete" ==> (calls("cache.(*RowCache).Delete") == 1 && calls("cache.(*RowCache).Create") == 0 && calls("cache.(*RowCache).Update") == 0 && arg3 == old && arg4 == nil)
+//@ at call cache.(*eventProcessor).AddEvent requires arg1 == "update" ==> (calls("cache.(*RowCache).Update") == 1 && calls("cache.(*RowCache).Create") == 0 && calls("cache.(*RowCache).Delete") == 0 && arg3 != nil && arg4 == new)
+//@ at call cache.(*eventProcessor).AddEvent requires arg1 == "delete" ==> (calls("cache.(*RowCache).Delete") == 1 && calls("cache.(*RowCache).Create") == 0 && calls("cache.(*RowCache).Update") == 0 && (old != nil ==> arg3 != nil) && arg4 == nil)
 //@ at call cache.(*eventProcessor).AddEvent requires arg1 == "add" || arg1 == "update" || arg1 == "delete"
+// (the old model of an update or delete event is a copy of the change's old model -
+// model.Clone, trusted; that it has the old contents is checked by the event-log
+// replay stand-in)
 // an event describes a change that was applied: no event after a cache operation that failed
 //@ at call cache.(*eventProcessor).AddEvent requires fails("cache.(*RowCache).Create") == 0 && fails("cache.(*RowCache).Update") == 0 && fails("cache.(*RowCache).Delete") == 0
 //@ at call cache.(*RowCache).Create requires old == nil && new != nil && arg1 == uuid && arg2 == new
@@ -258,6 +261,11 @@ package cache
 //@ at call cache.(*RowCache).Delete requires new == nil && arg1 == uuid
 //@ ensures_ok calls("cache.(*eventProcessor).AddEvent") == 1 && calls("cache.(*RowCache).Create") + calls("cache.(*RowCache).Update") + calls("cache.(*RowCache).Delete") == 1
 //@ ensures_err calls("cache.(*eventProcessor).AddEvent") == 0
+
+// C13: the models an event carries are the handlers' own: the old model of an
+// update or delete event is not the object the cache handed (shallow) to readers
+//@ func (*TableCache).ApplyCacheUpdate$1 group clone
+//@ at call cache.(*eventProcessor).AddEvent requires arg3 == nil || fresh(ptrof(arg3))
 
 // The dispatcher: every event taken off the queue is dispatched (under the
 // handlers lock) before the loop can return or take another one, and each
